@@ -149,6 +149,21 @@ func Overlay(repo, verif string, hs []Harness) (map[string][]byte, []string, err
 			}
 		}
 	}
+	// interposition hooks
+	doneH := map[Hook]bool{}
+	for _, h := range hs {
+		for _, hk := range parseHooks(h.Src) {
+			if doneH[hk] {
+				continue
+			}
+			doneH[hk] = true
+			p, out, err := applyHook(repo, hk, ov)
+			if err != nil {
+				return nil, nil, fmt.Errorf("%s: %v", h.File, err)
+			}
+			ov[p] = out
+		}
+	}
 	sort.Strings(pats)
 	return ov, pats, nil
 }
